@@ -25,8 +25,11 @@ class CFile:
         cmd = ["clang"]
         if openmp:
             cmd.append("-fopenmp")
-        cmd += ["-I" + os.path.join(REPO, "c"), "-Xclang", "-ast-dump=json",
-                "-fsyntax-only", self.path]
+        cmd += ["-I" + os.path.join(REPO, "c")]
+        if openmp:
+            # clang 14 has no omp.h here and cannot parse gcc 12's: a stub declaring the omp_* API is used
+            cmd += ["-idirafter", os.path.join(os.path.dirname(os.path.abspath(__file__)), "stubs")]
+        cmd += ["-Xclang", "-ast-dump=json", "-fsyntax-only", self.path]
         p = subprocess.run(cmd, capture_output=True, text=True)
         if p.returncode != 0:
             raise RuntimeError("clang failed on %s:\n%s" % (relpath, p.stderr))
